@@ -3,6 +3,7 @@ CONSTANTS Times <- McTimes
  ExpChoices <- McExp
  OfferMenu <- McMenu
  MaxBlocks = 5
+ MaxBoots = 1
  DupCheck = TRUE
  PayloadIdentity = TRUE
 INVARIANTS AtMostOnce InWindow ForkFree
